@@ -105,7 +105,8 @@ pub fn poll_once(poller: &mut dv::Poller, phc: Option<PhcInfo>, answer: &Answer,
     dv::set_thread_responder(None);
     let reads = vc.take_log();
     let messages: Vec<Message> = shm_mbox.try_iter().collect();
-    let query = QUERY_LOG.with(|q| q.borrow().first().copied());
+    // the query whose reply was delivered (an implementation may legitimately ask again)
+    let query = QUERY_LOG.with(|q| q.borrow().last().copied());
     PollObs { messages, reads, query }
 }
 
